@@ -69,7 +69,7 @@ func runMutants(repo, verif, prop string, timeout int) []mutantResult {
 			for _, d := range []string{"spec", "harness"} {
 				exec.Command("rsync", "-a", filepath.Join(verif, d)+"/", filepath.Join(mv, d)+"/").Run()
 			}
-			for _, f := range []string{"obligations.baseline.json", "known_findings.json"} {
+			for _, f := range []string{"obligations.baseline.json", "names.baseline.json", "known_findings.json"} {
 				if b, err := os.ReadFile(filepath.Join(verif, f)); err == nil {
 					os.MkdirAll(mv, 0o755)
 					os.WriteFile(filepath.Join(mv, f), b, 0o644)
